@@ -6,8 +6,6 @@
 
 '''Merkle trees, branches, proofs and roots.'''
 
-from math import ceil, log
-
 from aiorpcx import Event
 
 from electrumx.lib.hash import double_sha256
@@ -33,7 +31,7 @@ class Merkle(object):
             raise TypeError('hash_count must be an integer')
         if hash_count < 1:
             raise ValueError('hash_count must be at least 1')
-        return ceil(log(hash_count, 2))
+        return (hash_count - 1).bit_length()
 
     def branch_and_root(self, hashes, index, length=None, tsc_format=False):
         '''Return a (merkle branch, merkle_root) pair given hashes, and the
